@@ -1009,6 +1009,14 @@ def obj_ptr_methods : List String :=
 def obj_ptr_effects : List String :=
   ["Set:writes"]
 
+/-- declarations of the verification hooks files (verif build only; not translated): they may only add accessors -/
+def hook_decls : List String :=
+  ["zz_verif_hooks.go:func VerifBytes", "zz_verif_hooks.go:func VerifFromBytes", "zz_verif_hooks.go:func VerifLenVec", "zz_verif_hooks.go:func VerifRoundup"]
+
+/-- files of the package directory that belong to neither the ordinary nor the verif build, and non-Go sources -/
+def pkg_other_files : List String :=
+  []
+
 /-- `init` functions of the package (file:init) -/
 def pkg_inits : List String :=
   []
@@ -1027,6 +1035,14 @@ def pkg_writes : List String :=
 
 /-- function:variable.method for every method call on a package-level variable; function:go for goroutine starts -/
 def pkg_calls : List String :=
+  []
+
+/-- package-level variables (blank ones included) whose initialiser runs code: name:calls and function literals in it -/
+def pkg_var_inits : List String :=
+  ["ErrInvalidCVSSHeader:call errors.New", "ErrInvalidMetricValue:call errors.New", "ErrOutOfBoundsScore:call errors.New", "ErrTooShortVector:call errors.New"]
+
+/-- function:variable for every mention of a package-level variable (other than the `error` sentinels) in a function body or initialiser -/
+def pkg_var_uses : List String :=
   []
 
 /-- sync.Pool variables and what their `New` makes -/
